@@ -747,3 +747,251 @@ Proof.
   - rewrite Hsz. unfold Rdiv. apply Rmult_le_compat_l; [apply IZR_le; lia|].
     apply Rinv_le; [assumption | apply IZR_le; exact Hcy].
 Qed.
+
+(* ====================== (F) the float64 share (Percentage) ====================== *)
+(* a multiplicative interval: y * lo <= x <= y * hi *)
+Definition between (lo hi x y : R) : Prop := y * lo <= x <= y * hi.
+
+Lemma between_of_approx : forall k x y, approx k x y -> between ((1 - u) ^ k) ((1 + u) ^ k) x y.
+Proof. intros k x y H. exact H. Qed.
+
+Lemma between_div : forall l1 h1 l2 h2 a a0 b b0,
+  0 <= a0 -> 0 < b0 -> 0 <= l1 -> 0 <= h1 -> 0 < l2 -> 0 < h2 ->
+  between l1 h1 a a0 -> between l2 h2 b b0 ->
+  between (l1 / h2) (h1 / l2) (a / b) (a0 / b0).
+Proof.
+  intros l1 h1 l2 h2 a a0 b b0 Ha0 Hb0 Hl1 Hh1 Hl2 Hh2 [Ha1 Ha2] [Hb1 Hb2].
+  assert (Hb : 0 < b) by (apply Rlt_le_trans with (2 := Hb1); apply Rmult_lt_0_compat; assumption).
+  assert (Hbl : 0 < b0 * l2) by (apply Rmult_lt_0_compat; assumption).
+  assert (Hbh : 0 < b0 * h2) by (apply Rmult_lt_0_compat; assumption).
+  assert (Ha : 0 <= a) by (apply Rle_trans with (2 := Ha1); apply Rmult_le_pos; assumption).
+  unfold between. split.
+  - (* a0/b0 * (l1/h2) = (a0 l1) / (b0 h2) <= a / b *)
+    replace (a0 / b0 * (l1 / h2)) with ((a0 * l1) / (b0 * h2)) by (field; lra).
+    apply Rle_trans with (a / (b0 * h2)).
+    + unfold Rdiv. apply Rmult_le_compat_r; [apply Rlt_le, Rinv_0_lt_compat; exact Hbh | exact Ha1].
+    + unfold Rdiv. apply Rmult_le_compat_l; [exact Ha | apply Rinv_le; assumption].
+  - replace (a0 / b0 * (h1 / l2)) with ((a0 * h1) / (b0 * l2)) by (field; lra).
+    apply Rle_trans with (a / (b0 * l2)).
+    + unfold Rdiv. apply Rmult_le_compat_l; [exact Ha | apply Rinv_le; assumption].
+    + unfold Rdiv. apply Rmult_le_compat_r; [apply Rlt_le, Rinv_0_lt_compat; exact Hbl | exact Ha2].
+Qed.
+
+Lemma between_step : forall l h x y e, 0 <= y -> 0 <= l -> between l h x y -> Rabs e <= u ->
+  between (l * (1 - u)) (h * (1 + u)) (x * (1 + e)) y.
+Proof.
+  intros l h x y e Hy Hl [H1 H2] He. apply Rabs_le_inv in He. pose proof one_minus_u. pose proof u_pos.
+  assert (Hx : 0 <= x) by (apply Rle_trans with (2 := H1); apply Rmult_le_pos; assumption).
+  unfold between. split.
+  - apply Rle_trans with (x * (1 - u)); [nra | apply Rmult_le_compat_l; [exact Hx | lra]].
+  - apply Rle_trans with (x * (1 + u)); [apply Rmult_le_compat_l; [exact Hx | lra] | nra].
+Qed.
+
+Lemma between_scale : forall l h x y c, 0 <= c -> between l h x y -> between l h (x * c) (y * c).
+Proof. intros l h x y c Hc [H1 H2]. unfold between. split; nra. Qed.
+
+Lemma between_weaken : forall l h l' h' x y, 0 <= y -> l' <= l -> h <= h' -> between l h x y -> between l' h' x y.
+Proof. intros l h l' h' x y Hy Hl Hh [H1 H2]. unfold between. split; nra. Qed.
+
+(* numeric bounds for k roundings, some of them in a denominator *)
+Lemma inv_1pu_ge : forall k, (1 - u) ^ k <= / (1 + u) ^ k.
+Proof.
+  intros k. pose proof u_pos. pose proof one_minus_u.
+  rewrite <- pow_inv. apply pow_incr. split; [lra|].
+  apply Rmult_le_reg_r with (1 + u); [lra|]. rewrite Rinv_l by lra. nra.
+Qed.
+
+Lemma inv_1mu_ge : forall k, (1 + u) ^ k <= / (1 - u) ^ k.
+Proof.
+  intros k. pose proof u_pos. pose proof one_minus_u.
+  rewrite <- pow_inv. apply pow_incr. split; [lra|].
+  apply Rmult_le_reg_r with (1 - u); [lra|]. rewrite Rinv_l by lra. nra.
+Qed.
+
+Lemma inv_pow_1mu_bound : forall k, INR k * u <= / 2 -> / (1 - u) ^ k <= 1 + 2 * INR k * u.
+Proof.
+  intros k Hk. pose proof (pow_1mu_bound k). pose proof (pos_INR k). pose proof u_pos.
+  assert (Hv0 : 0 <= INR k * u) by (apply Rmult_le_pos; lra).
+  replace (2 * INR k * u) with (2 * (INR k * u)) by ring.
+  set (v := INR k * u) in *.
+  assert (Hpos : 0 < 1 - v) by lra.
+  apply Rle_trans with (/ (1 - v)); [apply Rinv_le; assumption|].
+  apply Rmult_le_reg_r with (1 - v); [exact Hpos|]. rewrite Rinv_l by lra. nra.
+Qed.
+
+Lemma mono4 : forall A B C d, 0 <= A -> 0 <= d -> B <= C -> A * B * d * d <= A * C * d * d.
+Proof. intros A B C d HA Hd HBC. assert (0 <= A * d * d) by (apply Rmult_le_pos; [apply Rmult_le_pos|]; assumption). nra. Qed.
+
+Lemma mono4b : forall A A' M d d', 0 <= A -> A <= A' -> 0 <= M -> 0 <= d -> d <= d' ->
+  A * M * d * d <= A' * M * d' * d'.
+Proof.
+  intros A A' M d d' HA HAA HM Hd Hdd.
+  apply Rle_trans with (A' * M * d * d).
+  - assert (0 <= M * d * d) by (apply Rmult_le_pos; [apply Rmult_le_pos|]; assumption). nra.
+  - assert (0 <= A' * M) by (apply Rmult_le_pos; lra). assert (d * d <= d' * d') by nra.
+    replace (A' * M * d * d) with (A' * M * (d * d)) by ring. replace (A' * M * d' * d') with (A' * M * (d' * d')) by ring.
+    apply Rmult_le_compat_l; assumption.
+Qed.
+
+(* the real-valued shadow of  Percentage = BitsPerSec / total * 100 *)
+Definition pct_r (x t : R) : R := rnd (rnd (x / t) * 100).
+
+Lemma pct_r_spec : forall ms baud b c,
+  ms <> [] -> Forall ok_msg ms -> (length ms <= 900)%nat -> (1 <= baud < 2 ^ 53)%Z -> In (b, c) ms ->
+  let T := sum_r (rates_r ms) 0 in
+  let exact := bps_x b c / sum_x (rates_x ms) * 100 in
+  between ((1 - u) ^ (length ms + 5)) (/ (1 - u) ^ (length ms + 5)) (pct_r (bps_r b c) T) exact
+  /\ 0 < exact
+  /\ bpow radix2 (-950) <= rnd (bps_r b c / T) <= bpow radix2 31
+  /\ pct_r (bps_r b c) T <= bpow radix2 38
+  /\ T <> 0.
+Proof.
+  intros ms baud b c Hne Hok Hn Hb Hin T exact.
+  rewrite Forall_forall in Hok. pose proof (Hok _ Hin) as Hm. rewrite <- Forall_forall in Hok.
+  destruct (bps_r_spec b c Hm) as [Hx [_ [[Hx1 Hx2] [_ Hxp]]]].
+  (* the total: n + 1 roundings, as in load_r_spec *)
+  assert (HT : approx (length ms + 1) T (sum_x (rates_x ms)) /\ bpow radix2 (-13) <= T <= bpow radix2 (18 + Z.of_nat (length ms)) /\ 0 < sum_x (rates_x ms)).
+  { unfold T. clear Hin. destruct ms as [|[b1 c1] r]; [congruence|]. inversion Hok as [|? ? Hm1 Hok']; subst.
+    destruct (bps_r_spec b1 c1 Hm1) as [Ht [Hft [[Ht1 Ht2] [_ Hxp1]]]].
+    assert (Hfirst : sum_r (rates_r ((b1, c1) :: r)) 0 = sum_r (rates_r r) (bps_r b1 c1)).
+    { cbn [rates_r map sum_r fold_left fst snd]. rewrite Rplus_0_l, (rnd_fmt _ Hft). reflexivity. }
+    destruct (sum_r_spec r (bps_r b1 c1) (bps_x b1 c1) 2 0 Hok' Hft ltac:(lra) ltac:(lia) Ht) as [Hs [_ [Hs1 Hs2]]].
+    { rewrite Z.add_0_r. split; assumption. }
+    rewrite Hfirst. cbn [length]. split; [|split].
+    - replace (S (length r) + 1)%nat with (2 + length r)%nat by lia. exact Hs.
+    - split; [exact Hs1|]. apply Rle_trans with (1 := Hs2). apply bpow_le. lia.
+    - cbn [rates_x map sum_x fold_right fst snd]. pose proof (sum_x_pos r Hok') as H. unfold rates_x, sum_x in H. lra. }
+  destruct HT as [HTa [[HT1 HT2] HXp]].
+  set (n := length ms) in *. set (X := sum_x (rates_x ms)) in *. set (x := bps_x b c) in *. set (xf := bps_r b c) in *.
+  assert (HT0 : 0 < T) by (apply Rlt_le_trans with (2 := HT1); apply bpow_gt_0).
+  assert (Hxf0 : 0 < xf) by (apply Rlt_le_trans with (2 := Hx1); apply bpow_gt_0).
+  pose proof u_pos as Hu. pose proof one_minus_u as H1u.
+  (* the quotient *)
+  assert (Hq : between ((1 - u) ^ 2 / (1 + u) ^ (n + 1)) ((1 + u) ^ 2 / (1 - u) ^ (n + 1)) (xf / T) (x / X)).
+  { apply between_div; try lra; try (apply Rlt_le, pow_lt; lra); try (apply pow_lt; lra).
+    - apply between_of_approx. exact Hx.
+    - apply between_of_approx. exact HTa. }
+  assert (Hq1 : bpow radix2 (-950) <= xf / T).
+  { apply Rle_trans with (bpow radix2 (-13) * / bpow radix2 (18 + Z.of_nat n)).
+    - rewrite <- bpow_opp, <- bpow_plus. apply bpow_le. unfold n. lia.
+    - unfold Rdiv. apply Rmult_le_compat; [apply bpow_ge_0 | apply Rlt_le, Rinv_0_lt_compat, bpow_gt_0 | exact Hx1 | apply Rinv_le; assumption]. }
+  assert (Hq2 : xf / T <= bpow radix2 31).
+  { replace 31%Z with (18 + 13)%Z by lia. rewrite bpow_plus.
+    unfold Rdiv. apply Rmult_le_compat; [lra | apply Rlt_le, Rinv_0_lt_compat; exact HT0 | exact Hx2 |].
+    replace (bpow radix2 13) with (/ bpow radix2 (-13)) by (rewrite <- bpow_opp; reflexivity).
+    apply Rinv_le; [apply bpow_gt_0 | exact HT1]. }
+  destruct (rnd_rel (xf / T)) as [e1 [He1 Hd1]].
+  { apply Rle_trans with (2 := Hq1). apply bpow_le. lia. }
+  assert (Hr1 := rnd_ge _ (-950)%Z ltac:(lia) Hq1). assert (Hr2 := rnd_le _ 31%Z ltac:(lia) Hq2).
+  set (q := rnd (xf / T)) in *.
+  assert (Hq0 : 0 <= q) by (apply Rle_trans with (2 := Hr1); apply bpow_ge_0).
+  assert (Hm1 : bpow radix2 (-950) <= q * 100) by (assert (0 <= bpow radix2 (-950)) by apply bpow_ge_0; nra).
+  assert (Hm2 : q * 100 <= bpow radix2 38).
+  { replace 38%Z with (7 + 31)%Z by lia. rewrite bpow_plus. simpl (bpow radix2 7). nra. }
+  destruct (rnd_rel (q * 100)) as [e2 [He2 Hd2]].
+  { apply Rle_trans with (2 := Hm1). apply bpow_le. lia. }
+  assert (Hex : 0 < exact).
+  { unfold exact. fold x X. unfold Rdiv. apply Rmult_lt_0_compat; [apply Rmult_lt_0_compat; [exact Hxp | apply Rinv_0_lt_compat; exact HXp] | lra]. }
+  assert (Hxx : 0 <= x / X) by (unfold Rdiv; apply Rmult_le_pos; [lra | apply Rlt_le, Rinv_0_lt_compat; exact HXp]).
+  assert (Hlo0 : 0 <= (1 - u) ^ 2 / (1 + u) ^ (n + 1)).
+  { unfold Rdiv. apply Rmult_le_pos; [apply Rlt_le, pow_lt; lra | apply Rlt_le, Rinv_0_lt_compat, pow_lt; lra]. }
+  split; [|split; [exact Hex | split; [split; assumption | split; [|lra]]]].
+  - (* between, then the numeric weakening *)
+    unfold pct_r. fold q. rewrite Hd2.
+    assert (Hfull : between ((1 - u) ^ 2 / (1 + u) ^ (n + 1) * (1 - u) * (1 - u)) ((1 + u) ^ 2 / (1 - u) ^ (n + 1) * (1 + u) * (1 + u)) (q * 100 * (1 + e2)) exact).
+    { apply between_step; [lra | | | exact He2].
+      - apply Rmult_le_pos; [exact Hlo0 | lra].
+      - unfold exact. fold x X. apply between_scale; [lra|].
+        rewrite Hd1. apply between_step; [exact Hxx | exact Hlo0 | exact Hq | exact He1]. }
+    apply between_weaken with (4 := Hfull); [lra | |].
+    + (* (1-u)^(n+5) <= (1-u)^2 / (1+u)^(n+1) * (1-u) * (1-u) *)
+      replace (n + 5)%nat with (2 + (n + 1) + 1 + 1)%nat by lia. generalize (n + 1)%nat. intros m.
+      rewrite !pow_add, !pow_1.
+      unfold Rdiv. apply mono4; [apply Rlt_le, pow_1mu_pos | lra | apply inv_1pu_ge].
+    + (* (1+u)^2 / (1-u)^(n+1) * (1+u) * (1+u) <= / (1-u)^(n+5) *)
+      replace (n + 5)%nat with (2 + (n + 1) + 1 + 1)%nat by lia. generalize (n + 1)%nat. intros m.
+      rewrite !pow_add, !pow_1, !Rinv_mult.
+      unfold Rdiv. pose proof (inv_1mu_ge 2) as H2. pose proof (inv_1mu_ge 1) as H11. rewrite !pow_1 in H11.
+      apply mono4b; try assumption; try lra.
+      * apply Rlt_le, pow_lt; lra.
+      * apply Rlt_le, Rinv_0_lt_compat, pow_1mu_pos.
+  - unfold pct_r. fold q. apply rnd_le; [lia | exact Hm2].
+Qed.
+
+Definition pct_f (x t : binary64) : binary64 := b64_mult mode_NE (b64_div mode_NE x t) (f64 100).   (* BitsPerSec / total * 100 *)
+
+Definition total_float (b : bus) (def : Z) : binary64 := sum_f (rates_f (float_inputs b def)) (f64 0).
+Definition pct_float (b : bus) (def : Z) (m : msg) : binary64 := pct_f (rate_float b def m) (total_float b def).
+
+Lemma total_real : forall b def, float_domain b def ->
+  Q2R (qsum (map (bps (b_typ b) def) (bus_msgs b))) = sum_x (rates_x (float_inputs b def)).
+Proof.
+  intros b def [_ [Hd [_ [_ Hm]]]]. rewrite Q2R_qsum.
+  unfold float_inputs, rates_x, sum_x. rewrite !map_map. f_equal.
+  apply map_ext_in. intros m Hin. cbn [fst snd].
+  rewrite Forall_forall in Hm. destruct (Hm m Hin) as [_ [_ Hc]].
+  apply (exact_term_real (b_typ b) def m Hd Hc).
+Qed.
+
+(* the float64 Percentage of a message: finite, within 2 (n+5) 2^-53 (relative) of its exact share;
+   for n >= 2 that is below the n 2^-50 the correspondence check uses (for n = 1 the float64 share
+   is exactly 100) *)
+Theorem pct_float_close_lemma : forall b def m,
+  float_domain b def -> In m (bus_msgs b) ->
+  let share := Q2R (bps (b_typ b) def m / qsum (map (bps (b_typ b) def) (bus_msgs b)) * inject_Z 100) in
+  is_finite 53 1024 (pct_float b def m) = true
+  /\ Rabs (B2R 53 1024 (pct_float b def m) - share) <= 2 * INR (length (bus_msgs b) + 5) * u * share
+  /\ ((2 <= length (bus_msgs b))%nat -> 2 * INR (length (bus_msgs b) + 5) * u <= INR (length (bus_msgs b)) * bpow radix2 (-50)).
+Proof.
+  intros b def m Hdom Hin share.
+  pose proof (float_inputs_ok b def Hdom) as Hok.
+  pose proof (msg_ok b def m Hdom Hin) as Hmok.
+  pose proof (total_real b def Hdom) as HX.
+  assert (Hlen : length (float_inputs b def) = length (bus_msgs b)) by (unfold float_inputs; apply map_length).
+  destruct Hdom as [Hb [Hd [Hne [Hn Hm]]]].
+  assert (Hne' : float_inputs b def <> []) by (intros E; apply Hne; apply length_zero_iff_nil; rewrite <- Hlen, E; reflexivity).
+  assert (Hin' : In (frame_bits (b_typ b) (m_size m), cycle_or_default (m_cycle m) def) (float_inputs b def)).
+  { unfold float_inputs. apply in_map_iff. exists m. split; [reflexivity | exact Hin]. }
+  destruct (pct_r_spec (float_inputs b def) (b_baud b) _ _ Hne' Hok ltac:(lia) Hb Hin') as [Hbt [Hpos [[Hq1 Hq2] [Hp38 HTne]]]].
+  (* the share as a real expression *)
+  assert (Hshare : share = bps_x (frame_bits (b_typ b) (m_size m)) (cycle_or_default (m_cycle m) def) / sum_x (rates_x (float_inputs b def)) * 100).
+  { unfold share. rewrite Forall_forall in Hm. destruct (Hm m Hin) as [_ [_ Hc]].
+    assert (HXp : 0 < sum_x (rates_x (float_inputs b def))).
+    { destruct (load_r_spec (float_inputs b def) (b_baud b) Hne' Hok ltac:(lia) Hb) as [_ [Hp _]].
+      assert (0 < IZR (b_baud b)) by (apply IZR_lt; lia).
+      unfold Rdiv in Hp. assert (0 < / IZR (b_baud b)) by (apply Rinv_0_lt_compat; assumption).
+      destruct (Rle_or_lt (sum_x (rates_x (float_inputs b def))) 0) as [Hle|Hlt]; [|exact Hlt]. nra. }
+    assert (HQ : ~ qsum (map (bps (b_typ b) def) (bus_msgs b)) == 0).
+    { intros E. apply Qeq_eqR in E. rewrite HX in E. change (Q2R 0) with (0 / 1) in E. lra. }
+    rewrite Q2R_mult, Q2R_div by exact HQ. rewrite HX, Q2R_inject_Z, (exact_term_real _ def m Hd Hc). reflexivity. }
+  rewrite <- Hshare in Hbt, Hpos.
+  (* the binary64 side *)
+  destruct (bps_f_correct _ _ Hmok) as [Ex Fx].
+  destruct (f64_correct 0 ltac:(lia)) as [E0 F0]. destruct (f64_correct 100 ltac:(lia)) as [Eh Fh].
+  destruct (sum_f_correct (float_inputs b def) (f64 0) 0 Hok F0) as [ES FS].
+  { rewrite E0. split; [lra | apply bpow_ge_0]. }
+  { lia. }
+  rewrite E0 in ES.
+  destruct (div_ok (rate_float b def m) (total_float b def) 31 Fx) as [Ed Fd].
+  { unfold total_float. rewrite ES. exact HTne. }
+  { lia. }
+  { unfold rate_float, total_float. rewrite Ex, ES. apply abs_le_of_range with (bpow radix2 (-950)); [apply bpow_ge_0 | split; assumption]. }
+  unfold rate_float, total_float in Ed. rewrite Ex, ES in Ed.
+  destruct (mult_ok (b64_div mode_NE (rate_float b def m) (total_float b def)) (f64 100) 38 Fd Fh ltac:(lia)) as [Em Fm].
+  { unfold rate_float, total_float. rewrite Ed, Eh. fold (pct_r (bps_r (frame_bits (b_typ b) (m_size m)) (cycle_or_default (m_cycle m) def)) (sum_r (rates_r (float_inputs b def)) 0)).
+    rewrite Rabs_pos_eq; [exact Hp38|].
+    unfold pct_r. apply rnd_nonneg. apply Rmult_le_pos; [|lra]. apply Rle_trans with (2 := Hq1). apply bpow_ge_0. }
+  unfold rate_float, total_float in Em. rewrite Ed, Eh in Em.
+  fold (pct_r (bps_r (frame_bits (b_typ b) (m_size m)) (cycle_or_default (m_cycle m) def)) (sum_r (rates_r (float_inputs b def)) 0)) in Em.
+  split; [exact Fm | split].
+  - unfold pct_float, pct_f. unfold R64 in Em. fold (rate_float b def m) (total_float b def) in Em. rewrite Em.
+    rewrite Hlen in Hbt. set (k := (length (bus_msgs b) + 5)%nat) in *.
+    assert (Hk : INR k * u <= / 2).
+    { unfold k. rewrite plus_INR. simpl (INR 5). apply le_INR in Hn. replace (INR 900) with 900 in Hn by (simpl; lra).
+      unfold u. simpl bpow. nra. }
+    destruct Hbt as [H1 H2]. pose proof (pow_1mu_bound k). pose proof (inv_pow_1mu_bound k Hk).
+    pose proof u_pos. pose proof (pos_INR k).
+    apply Rabs_le. split; nra.
+  - intros H2n. rewrite plus_INR. simpl (INR 5). apply le_INR in H2n. simpl (INR 2) in H2n.
+    unfold u. simpl bpow. nra.
+Qed.
